@@ -5,9 +5,12 @@ V = os.path.dirname(os.path.abspath(__file__))
 props = [json.loads(l)["id"] for l in open(os.path.join(V, "properties.jsonl"))]
 checks = []
 engines = {}
+enabled = set(open(os.path.join(V, "enabled.txt")).read().split())
 for p in sorted(glob.glob(os.path.join(V, "checks", "*.json"))):
     c = json.load(open(p))
     cid = c["id"]
+    if cid not in enabled:
+        continue
     m = c["manifest"]
     checks.append({
         "property_id": cid,
